@@ -38,7 +38,14 @@ fn verif_native_command_total() {
                             verif_out(&format!("VERIF-COUNTEREXAMPLE name={} input={:?} detail=parses to {:?} but with an upper-case name to {:?}", name, line, a, b));
                             panic!("violation");
                         }
-                        if let Ok(d) = a { accepted.insert(d); }
+                        if let Ok(d) = a {
+                            // the guarantee the debugger proof relies on (cmd_wf): a `step into` count is never 0
+                            if d.contains("StepInto { count: 0 }") {
+                                verif_out(&format!("VERIF-COUNTEREXAMPLE name={} input={:?} detail=parses to {} (a count of 0 must mean 1)", name, line, d));
+                                panic!("violation");
+                            }
+                            accepted.insert(d);
+                        }
                     }
                 }
             }
